@@ -284,6 +284,7 @@ def gen_case(rng, ctx) -> dict[str, Any]:
         logical_not=flags.get("logical_not_operator", False),
         parens=flags.get("logical_parentheses", False),
         wild=0.1,
+        orphan_interrupts=rng.choice([0.0, 0.0, 0.5]),  # break / continue outside a loop: in a partial it reaches (include) or must not reach (render) the caller's loop
     )
     kind = rng.choice(LOADER_KINDS) if rng.random() < 0.7 else rng.choice(["dict", "caching_dict", "ns_caching_dict"])
     main, partials, meta = tpl.gen_template_set(rng, cfg, n_partials=rng.randint(0, 3))
